@@ -57,6 +57,7 @@ func (panel *userPanel) GetBypassUser(UID []byte) (*ActiveUser, error) {
 		valve:    mux.UNLIMITED_VALVE,
 		sessions: make(map[uint32]*mux.Session),
 		bypass:   true,
+		gone:     make(chan struct{}),
 	}
 	copy(user.arrUID[:], UID)
 	panel.activeUsers[user.arrUID] = user
@@ -86,6 +87,7 @@ func (panel *userPanel) GetUser(UID []byte) (*ActiveUser, error) {
 		panel:    panel,
 		valve:    valve,
 		sessions: make(map[uint32]*mux.Session),
+		gone:     make(chan struct{}),
 	}
 
 	copy(user.arrUID[:], UID)
@@ -112,6 +114,8 @@ func (panel *userPanel) TerminateActiveUser(user *ActiveUser, reason string) {
 		delete(panel.activeUsers, user.arrUID)
 	}
 	panel.activeUsersM.Unlock()
+	// the record is out of the panel: whoever found it retired can look the user up again now
+	user.goneOnce.Do(func() { close(user.gone) })
 }
 
 func (panel *userPanel) isActive(UID []byte) bool {
